@@ -66,11 +66,15 @@ pub struct Config {
     pub seed: u64,
     /// replay mode if `Some`
     pub replay: Option<Vec<Decision>>,
+    /// the program under test is called from a worker of the pool (as under
+    /// `ThreadPool::install`), not from an outside thread: top-level joins are then not
+    /// injected and the split trees differ
+    pub inside: bool,
 }
 
 impl Config {
     pub fn sequential() -> Config {
-        Config { width: 1, policy: Policy::Sequential, seed: 0, replay: None }
+        Config { width: 1, policy: Policy::Sequential, seed: 0, replay: None, inside: false }
     }
 }
 
@@ -85,6 +89,7 @@ pub struct Stats {
     pub spawns: u64,
     pub spawn_reorder: u64,
     pub installs: u64,
+    pub started_inside_pool: u64,
     pub width_changes: u64,
     pub max_depth: usize,
     pub num_threads_reads: u64,
@@ -232,6 +237,11 @@ pub fn begin(cfg: Config) {
         s.policy = cfg.policy;
         s.rng = cfg.seed;
         s.replay = cfg.replay;
+        if cfg.inside {
+            let w = s.choose(Kind::TopWorker, s.width) as usize;
+            s.worker = Some(w);
+            s.stats.started_inside_pool += 1;
+        }
     });
 }
 
